@@ -200,4 +200,21 @@ PROPS = {
                  "differences). Oracle: after every load and registration the dump equals the reference model (file value else default; unregistered "
                  "leftovers gone), required hooks ran, identical reload notifies nobody, ASan clean. Non-trivial = >=2 loads compared.",
                  1500, 100000, {}, quick_s=80),
+    "C17": _spec("reload", "Each evaluation is two daemon lifetimes: R starts on the first of a chain of 2-4 configurations (service table over 4 names x "
+                 "4 protocols, rule table over 5 names x 7 criteria), optionally serves clients to completion and leaves one pending, reloads through the "
+                 "chain (entries added, removed, changed in place, remove-then-add; single or double SIGUSR1) and serves 2-5 probe clients; F is a fresh "
+                 "daemon on the last configuration serving the same probes. Oracle: '? config' reports equal as sets (retired '-' entries ignored) and "
+                 "every probe conversation identical after tag normalisation. Non-trivial = first and last configuration differ and a probe produced output.",
+                 900, 60000, {}, quick_s=80),
+    "C18": _spec("logs", "Each run: a logs section over facilities {*, core, config, va, vb}, severity expressions (names, comma lists, the five "
+                 "operators, *, unknown names, empty items, missing '.', repeated keys) mapping to 1-3 of 4 files as a destination or a list; then 1-4 "
+                 "reload steps (new section, identical, permuted/shortened, damaged file, burst of signals, messages emitted between two signals). After "
+                 "each step one nonce line per (facility, severity != fatal) is emitted through log_message(); simulated clock advances between steps. "
+                 "Oracle over the files: nonce present iff the section in force maps it there, never more copies than mappings, line format, facility/"
+                 "severity attribution, simulated time stamp, trailing newline. Non-trivial = a reload happened and at least one pair was routed.",
+                 1200, 80000, {}, quick_s=80),
+    "C20": _spec("modules", "Each run: a dependency graph over 2-6 stub modules (random, chain, fork, diamond, dense; 20% with a self-loop or back edge), a "
+                 "random subset listed in core.modules in random order (sometimes twice), and in 20% one module's file missing or not an ELF object. "
+                 "Oracle over the recorded lifecycle history and exit status (see DESIGN 5/C20). Non-trivial = the closure of the listed modules has >= 2 modules.",
+                 1500, 80000, {}, quick_s=80),
 }
